@@ -3,11 +3,11 @@
 # property's check is READY (tools/seed_eval.sh), logs to /tmp/seed_pipeline.log. Development helper, not a registered check.
 cd /verif
 while true; do
-  for d in /tmp/seedout_C*; do
+  for d in /tmp/seedout_C* /tmp/seedout2_C*; do
     [ -f $d/meta.json ] && [ -f $d/patch.diff ] && [ -f $d/demo.py ] || continue
-    P=${d#/tmp/seedout_}
+    P=${d##*_}; R=1; case $d in /tmp/seedout2_*) R=2;; esac
     [ -e $d/.tried ] && continue
-    [ -d /verif/seeded/$P-1 ] && { mkdir $d/.tried 2>/dev/null; continue; }
+    [ -d /verif/seeded/$P-$R ] && { mkdir $d/.tried 2>/dev/null; continue; }
     mkdir $d/.tried 2>/dev/null || continue   # atomic claim (several pipeline workers may run)
     sleep 20   # let the seeder finish writing
     echo "=== $(date +%H:%M) verify $P" >> /tmp/seed_pipeline.log
@@ -17,9 +17,10 @@ while true; do
       git -C /repo worktree add -q /tmp/rb_$P HEAD && (cd /tmp/rb_$P && patch -p1 --fuzz=3 < $d/patch.diff >> /tmp/seed_pipeline.log 2>&1 && git diff > $d/patch.rebased && cp $d/patch.rebased $d/patch.diff)
       git -C /repo worktree remove --force /tmp/rb_$P 2>/dev/null
     fi
-    SUITE_N=6 timeout 3600 tools/seed_verify.sh $P 2>&1 | grep -v WARNING | tail -6 >> /tmp/seed_pipeline.log
-    git -C /repo worktree remove --force /tmp/sv_$P-1 2>/dev/null
-    git -C /repo worktree remove --force /tmp/seed_$P 2>/dev/null
+    SEED_OUT=$d SUITE_N=6 timeout 3600 tools/seed_verify.sh $P $P-$R 2>&1 | grep -v WARNING | tail -6 >> /tmp/seed_pipeline.log
+    git -C /repo worktree remove --force /tmp/sv_$P-$R 2>/dev/null
+    [ $R = 1 ] && git -C /repo worktree remove --force /tmp/seed_$P 2>/dev/null
+    [ $R = 2 ] && git -C /repo worktree remove --force /tmp/seed2_$P 2>/dev/null
   done
   for m in /verif/seeded/*/meta.json; do
     ID=$(basename $(dirname $m)); P=${ID%-*}
